@@ -40,13 +40,15 @@ import (
 )
 
 type verifTab struct {
-	ULen           []int `json:"ulen"`
-	ULenMid        int   `json:"ulenmid"`
-	ULenBig        int   `json:"ulenbig"`
-	BigFrom        int   `json:"bigfrom"`
-	ExactFrom      int   `json:"exactfrom"`
-	RefLen         []int `json:"reflen"`
-	ManifestDigest int   `json:"manifestdigest"`
+	ULen           []int    `json:"ulen"`
+	ULenMid        int      `json:"ulenmid"`
+	ULenBig        int      `json:"ulenbig"`
+	BigFrom        int      `json:"bigfrom"`
+	ExactFrom      int      `json:"exactfrom"`
+	RefLen         []int    `json:"reflen"`
+	RefStr         []string `json:"refstr"` // "" = abstract reference of length reflen[i]; otherwise the exact string
+	RefVariants    int      `json:"refvariants"`
+	ManifestDigest int      `json:"manifestdigest"`
 	Pf             []struct {
 		V   string `json:"v"`
 		Len int    `json:"len"`
@@ -130,8 +132,8 @@ type verifMemProvider map[digest.Digest][]byte
 
 type verifReaderAt struct{ *bytes.Reader }
 
-func (verifReaderAt) Close() error    { return nil }
-func (r verifReaderAt) Size() int64   { return r.Reader.Size() }
+func (verifReaderAt) Close() error  { return nil }
+func (r verifReaderAt) Size() int64 { return r.Reader.Size() }
 func (p verifMemProvider) ReaderAt(_ context.Context, desc ocispec.Descriptor) (content.ReaderAt, error) {
 	b, ok := p[desc.Digest]
 	if !ok {
@@ -194,6 +196,11 @@ func (w *verifWorld) garbageOf(u int) string {
 }
 
 func (w *verifWorld) refOf(r int) string {
+	if r-1 < len(w.tab.RefStr) && w.tab.RefStr[r-1] != "" {
+		s := w.tab.RefStr[r-1] // concrete shape: byte for byte what the specification names
+		w.tok2id[s] = r
+		return s
+	}
 	n := w.tab.RefLen[r-1]
 	head := fmt.Sprintf("registry.example/r%d/", r)
 	tail := ":v1"
@@ -224,8 +231,15 @@ func verifCorruptRef(s string, v int) string {
 		return "/" + s
 	case 3:
 		return "registry%zz.example/" + s
-	default:
+	case 4:
 		return "[::1/" + s
+	// host-less values: not references as containerd writes them (reference.Parse requires a host)
+	case 5:
+		return "ubuntu:22.04"
+	case 6:
+		return "app:v1"
+	default:
+		return " "
 	}
 }
 
@@ -285,7 +299,7 @@ func VerifRunLabelCases(inPath, outPath string, readers map[string]GetSources) e
 	if err := json.Unmarshal(raw, &in); err != nil {
 		return err
 	}
-	if in.Tab.NVariants > 4 || in.Tab.DLen != len(verifDigestOf(1).String()) {
+	if in.Tab.NVariants > 4 || in.Tab.RefVariants > 7 || in.Tab.DLen != len(verifDigestOf(1).String()) {
 		return fmt.Errorf("verif: table does not match the driver: %+v", in.Tab)
 	}
 	// precondition of the projection: every "malformed" spelling really is rejected by the parsers the readers use
@@ -293,6 +307,8 @@ func VerifRunLabelCases(inPath, outPath string, readers map[string]GetSources) e
 		if _, err := digest.Parse(verifCorruptDigest(verifDigestOf(1).String(), v)); err == nil {
 			return fmt.Errorf("verif: digest spelling %d is accepted by digest.Parse", v)
 		}
+	}
+	for v := 1; v <= 7; v++ {
 		if _, err := reference.Parse(verifCorruptRef("registry.example/r1/aaa:v1", v)); err == nil {
 			return fmt.Errorf("verif: ref spelling %d is accepted by reference.Parse", v)
 		}
@@ -378,7 +394,7 @@ func verifRunCase(tab verifTab, c verifCase, reader GetSources) (*verifEvent, er
 		}
 		mf.Layers = append(mf.Layers, desc)
 	}
-	for v := 1; v <= 4; v++ {
+	for v := 1; v <= 7; v++ {
 		w.tok2id[verifCorruptRef(ref, v)] = -c.Ref
 	}
 	mb, err := json.Marshal(mf)
